@@ -5,7 +5,11 @@
                                 the gradient grid gets -f_m at address addr*mult+m (acc_force subtracts)
             x,t                 exchange round at step t
             r,w,t               restart of walker w at step t
-            q,w                 print walker w:  Q w last cnt=G;L;Loc sum=G;L;Loc
+            a,w                 (small-step protocol only) walker w enters replica_share()
+            q,w                 print walker w:  Q w last cnt=G;L;Loc sum=G;L;Loc ss=<1 when the small-step protocol
+                                (SharedModel.sstep, run on the same schedule: a,w = AStart; x,t = the receives of replica 0
+                                in order, the broadcast, the receives of the others, the barrier) accepted every action so
+                                far and holds the same count grids for this walker>
             d,t                 print which walkers consider step t an exchange step: D t b0b1..
        The count grid runs the generic model over OCaml ints, the gradient grid over floats (the same
        extracted code, two carriers).  After every event each grid is tabulated (a closure that looks up an
@@ -41,6 +45,12 @@ let abf (w : string array) =
   let cw = ref (init igrp (nat_of_int n)) in
   let sw = ref (init fgrp (nat_of_int n)) in
   let out = ref [] in
+  (* the count grids once more, through the small-step protocol *)
+  let ss = ref (Some (sinit igrp (nat_of_int n))) in
+  let tabn (s : int net) = { n_root = (tabw nc 0 (fst s.n_root), snd s.n_root);
+                             n_others = List.map (fun (c, ph) -> (tabw nc 0 c, ph)) s.n_others;
+                             n_k = s.n_k; n_bc = s.n_bc } in
+  let act a = (match !ss with Some s -> ss := (match sstep igrp s a with Some s' -> Some (tabn s') | None -> None) | None -> ()) in
   let apply_c e = cw := List.map (tabw nc 0) (apply_ev igrp old !cw e) in
   let apply_s e = sw := List.map (tabw ns 0.0) (apply_ev fgrp old !sw e) in
   for k = 6 to Array.length w - 1 do
@@ -49,20 +59,33 @@ let abf (w : string array) =
       let wi = nat_of_int (int_of_string ws) in
       let a = int_of_string addr in
       apply_c (ESample (wi, z_of_int a, 1));
+      act (ASample (wi, z_of_int a, 1));
       List.iteri (fun m f -> apply_s (ESample (wi, z_of_int (a * mult + m), (-. (fl f))))) fs
     | [ "x"; t ] ->
       let t = z_of_int (int_of_string t) in
-      apply_c (EExchange t); apply_s (EExchange t)
+      apply_c (EExchange t); apply_s (EExchange t);
+      for _ = 2 to n do act ARecv done;
+      act ABcast;
+      for p = n - 1 downto 1 do act (AGet (nat_of_int p)) done;
+      act (AFinish t)
+    | [ "a"; ws ] -> act (AStart (nat_of_int (int_of_string ws)))
     | [ "r"; ws; t ] ->
       let wi = nat_of_int (int_of_string ws) in
       let t = z_of_int (int_of_string t) in
-      apply_c (ERestart (wi, t)); apply_s (ERestart (wi, t))
+      apply_c (ERestart (wi, t)); apply_s (ERestart (wi, t));
+      (if not old then act (ARestart (wi, t)))
     | [ "q"; ws ] ->
       let i = int_of_string ws in
       let c = List.nth !cw i and s = List.nth !sw i in
-      out := Printf.sprintf "Q %d %d cnt=%s;%s;%s sum=%s;%s;%s" i (int_of_z c.wlast)
+      let ssok = (match !ss with
+          | None -> false
+          | Some st ->
+            let wk = List.nth (walkers_of st) i in
+            dump nc string_of_int wk.wG = dump nc string_of_int c.wG && dump nc string_of_int wk.wL = dump nc string_of_int c.wL
+            && dump nc string_of_int wk.wLoc = dump nc string_of_int c.wLoc && int_of_z wk.wlast = int_of_z c.wlast) in
+      out := Printf.sprintf "Q %d %d cnt=%s;%s;%s sum=%s;%s;%s ss=%d" i (int_of_z c.wlast)
           (dump nc string_of_int c.wG) (dump nc string_of_int c.wL) (dump nc string_of_int c.wLoc)
-          (dump ns hex s.wG) (dump ns hex s.wL) (dump ns hex s.wLoc) :: !out
+          (dump ns hex s.wG) (dump ns hex s.wL) (dump ns hex s.wLoc) (if ssok then 1 else 0) :: !out
     | [ "d"; t ] ->
       let tz = z_of_int (int_of_string t) in
       out := Printf.sprintf "D %s %s" t
